@@ -41,15 +41,24 @@ Theorem C08_nothing_lost :
   forall h, Forall wf_gop h -> nothing_lost (gtrace h).
 Proof. intros h Hwf. exact (proj2 (proj2 (proj2 (model_line h Hwf)))). Qed.
 
-(* the same four clauses as accepted by the one-pass monitor, which is the oracle run on the traces
+(* T2d (closing): when accept() answers "no more requests" a GOAWAY is on the wire and its identifier promises
+   nothing beyond the requests served: it is at most the first request id after the largest one shown (0 if
+   none) - so no request below the last identifier is left unserved by an accept() that has said None *)
+Theorem C08_none_closes_the_promise :
+  forall h, Forall wf_gop h ->
+    forall a b, gtrace h = a ++ ENone :: b ->
+      exists g, last_wire a = Some g /\ g <= first_unserved (top_shown a).
+Proof. intros h Hwf. exact (model_closing h Hwf). Qed.
+
+(* the same clauses as accepted by the one-pass monitor, which is the oracle run on the traces
    of the real implementation; the monitor is sound for the line *)
 Theorem C08_monitor_accepts_model :
   forall h, Forall wf_gop h -> line_okb (gtrace h) = true.
 Proof. exact model_on_the_line. Qed.
-Theorem C08_monitor_sound : forall t, line_okb t = true -> line t.
-Proof. exact line_okb_sound. Qed.
+Theorem C08_monitor_sound : forall t, line_okb t = true -> line t /\ closing_goaway t.
+Proof. intros t H. split; [apply line_okb_sound|apply line_okb_closing]; exact H. Qed.
 (* ... and complete: it rejects no trace that is on the line (no false alarm from the oracle) *)
-Theorem C08_monitor_complete : forall t, line t -> line_okb t = true.
+Theorem C08_monitor_complete : forall t, line t -> closing_goaway t -> line_okb t = true.
 Proof. exact line_okb_complete. Qed.
 
 (* T3 (client): the client model is the RFC 9114 reference client on every history: once the driver has
@@ -65,7 +74,8 @@ Theorem C08_decision_points :
                    = match sent with Some g => g <=? id | None => false end) /\
   (forall l n, shutdown_id (Some l) n = sid_add (sid_add l n) 1) /\
   (forall n, shutdown_id None n = sid_add 0 n) /\
-  last_accepted_is_max = true /\
+  last_accepted_is_max = true /\ ongoing_insert_is_stream = true /\
+  accept_none_shutdown = Some 0 /\ accept_none_only_if_unsent = false /\
   (forall s g, (guard_present && cmp_eval guard_cmp s g) = (s <=? g)) /\
   reject_stop_code = Some rfc_H3_REQUEST_REJECTED /\ reject_reset_code = Some rfc_H3_REQUEST_REJECTED /\
   kind_code = rfc_H3_ID_ERROR /\ order_code = rfc_H3_ID_ERROR.
@@ -94,6 +104,10 @@ Example C08_repeated_shutdown_inhabited :
     [EArrive 4; EArrive 0; EPoll; EShown 4; EPoll; EShown 0; EShutdown 2; EWire 16;
      EShutdown 18446744073709551615; EShutdown 0; EWire 8; EShutdown 1].
 Proof. vm_compute. reflexivity. Qed.
+Example C08_closing_inhabited :
+  gtrace [Arrive 0; Poll; Shutdown 2; Complete 0; PeerGoaway 0; Poll] =
+    [EArrive 0; EPoll; EShown 0; EShutdown 2; EWire 12; EComplete 0; EPeerGoaway 0; EPoll; EWire 4; ENone].
+Proof. vm_compute. reflexivity. Qed.
 Example C08_client_inhabited :
   crun client0 [KRequest; KGoaway 8; KDrive; KRequest; KGoaway 12; KDrive] =
     [CRequest; CReqOpened 0; CGoaway 8; CDrive; CDriveIdle; CRequest; CReqClosing; CGoaway 12; CDrive; CDriveErr 264].
@@ -103,6 +117,7 @@ Print Assumptions C08_wire_ids_never_increase.
 Print Assumptions C08_shown_below_every_goaway.
 Print Assumptions C08_line_is_exact.
 Print Assumptions C08_nothing_lost.
+Print Assumptions C08_none_closes_the_promise.
 Print Assumptions C08_monitor_accepts_model.
 Print Assumptions C08_monitor_sound.
 Print Assumptions C08_monitor_complete.
